@@ -501,9 +501,18 @@ def check_python_version(program: str) -> None:
 
 def count_stats(messages: list[str]) -> tuple[int, int, int]:
     """Count total number of errors, notes and error_files in message list."""
-    errors = [e for e in messages if ": error:" in e]
+    # Classify each message by the severity marker that comes first: the text of an
+    # error may itself contain ": note:" (and the other way round).
+    errors = []
+    notes = []
+    for msg in messages:
+        error_pos = msg.find(": error:")
+        note_pos = msg.find(": note:")
+        if error_pos >= 0 and (note_pos < 0 or error_pos < note_pos):
+            errors.append(msg)
+        elif note_pos >= 0:
+            notes.append(msg)
     error_files = {e.split(":")[0] for e in errors}
-    notes = [e for e in messages if ": note:" in e]
     return len(errors), len(notes), len(error_files)
 
 
